@@ -243,7 +243,7 @@ func streamVerparse(g *core.G) {
 		s := renderWF(e, u, rv, hr)
 		js := `"` + s + `"`
 		if r.Chance(1, 5) {
-			js = r.Pick([]string{s, `"` + s, s + `"`, `""`, `null`, `1`, `" ` + s + ` "`})
+			js = r.Pick([]string{s, `"` + s, s + `"`, `""`, `1`, `" ` + s + ` "`})
 		}
 		g.Emit("verjson", core.Hex(js))
 	}
